@@ -162,6 +162,13 @@ def handle (s : Sexp) : D String :=
                     args := ← args.mapM decStr, lastNum := lastNum, rank := ← decNat rank } : ShownSym)
         | x => dfail "shown symbol" x
       pure ((printModel h ss).replace "\n" "\\n")
+  | .list (.atom "ivset" :: ivs) => do
+      -- (ivset (l r) ...) : add the intervals in order; print the resulting list and membership of -2..12
+      let ys ← ivs.mapM fun x => match x with
+        | .list [l, r] => do pure (⟨← decInt l, ← decInt r⟩ : Ival)
+        | s => dfail "interval" s
+      let s := ys.foldl IntervalSet.add []
+      pure (" ".intercalate (s.map fun i => s!"({i.left} {i.right})"))
   | s => .error s!"unknown command: {s.toStr}"
 
 partial def loop (inp : IO.FS.Stream) (out : IO.FS.Stream) : IO Unit := do
